@@ -212,7 +212,58 @@ def gen_case(rng, nsplits):
     c["text"] = text
     c["splits"] = [[hx(p) for p in s] for s in gen_splits(rng, text, nsplits, c["tools"], bounds if c["tools"] else ())]
     c["klass"] = "%s/%s%s/%s/%s" % (kind, c["model"], "+tools" if c["tools"] else "", tclass, endk + ("+tokfail" if c["tokfail"] else ""))
+    toolshaped = kind == "chat" and not c["tools"] and tclass != "text"
+    if rng.random() < (0.9 if toolshaped else 0.45):
+        c["reqvar"] = gen_reqvar(rng, c, force_tools=toolshaped and c["model"] == "tools")
+        if c["reqvar"]:
+            c["klass"] += "/reqvar"
+            for v in c["reqvar"]:
+                c.setdefault("_varfields", []).append(v["path"])
     return c
+
+
+def gen_reqvar(rng, c, force_tools=False):
+    """fields that are PRESENT BUT EMPTY / NULL in the raw JSON request (api.Client cannot send them: omitempty; raw HTTP and other
+    SDKs can): same request semantics as leaving the field out.  Only fields the case leaves unset are touched."""
+    N, V = ["st", "ns"], ["v1st", "v1stu", "v1ns"]
+    out = []
+
+    def maybe(path, raws, modes, p=0.45):
+        if rng.random() < p:
+            out.append({"path": path, "raw": rng.choice(raws), "modes": modes})
+    chat = c["kind"] == "chat"
+    if chat and not c["tools"]:
+        maybe("tools", ["[]", "[]", "null"], N, 1.0 if force_tools else 0.6)
+        maybe("tools", ["[]", "null"], V, 0.8 if force_tools else 0.5)
+    if c["format"] == "":
+        maybe("format", ['""', "null"], N)
+        if chat:
+            maybe("response_format", ["null"], V)
+    if not c["stop"]:
+        r = rng.random()
+        if r < 0.3:
+            out.append({"path": "options", "raw": rng.choice(["null", "{}"]), "modes": N})
+        elif r < 0.6:
+            out.append({"path": "options.stop", "raw": rng.choice(["[]", "null"]), "modes": N})
+        maybe("stop", ["[]", "null", '""'], V)
+    maybe("stream", ["null"], ["st"], 0.3)
+    maybe("stream", ["null"], ["v1ns"], 0.3)
+    maybe("keep_alive", ["null"], N, 0.3)
+    maybe("stream_options", ["null"], ["v1st", "v1ns"], 0.3)
+    for f in ("max_tokens", "seed", "temperature"):
+        maybe(f, ["null"], V, 0.2)
+    if chat:
+        maybe("messages.0.images", ["[]", "null"], N + V if False else N, 0.4)
+        maybe("messages.0.tool_calls", ["[]", "null"], N, 0.3)
+    else:
+        maybe("images", ["[]", "null"], N, 0.4)
+        maybe("suffix", ['""'], N + V, 0.4)
+        maybe("system", ['""'], N, 0.3)
+        maybe("template", ['""'], N, 0.3)
+        maybe("context", ["[]", "null"], N, 0.3)
+        if not c["raw"]:
+            maybe("raw", ["null", "false"], N, 0.2)
+    return out
 
 
 def corpus_cases():
@@ -574,7 +625,8 @@ def monitor_case(c, obs, oracle, viol):
         elif rn != ref[1]:
             viol(dict(base, **{"class": "nonstream-differ", "field": first_diff(rn, ref[1], NAT_FIELDS)}),
                  "non-streamed responses of two splits of the same output differ", {"splits": [ref[0], si], "a": ref[1], "b": rn})
-        for mode in ("st", "cst", "cns"):
+        nat_var = any(set(v["modes"]) & {"st", "ns"} for v in c.get("reqvar", []))
+        for mode in (("st",) if nat_var else ("st", "cst", "cns")):   # api.Client cannot send the present-but-empty fields: not the same request
             r = byrun.get((si, mode))
             if r is None:
                 continue
@@ -613,7 +665,7 @@ def monitor_case(c, obs, oracle, viol):
         # the runner saw the same request in every mode (prompt everywhere; format and stop within one endpoint family:
         # /v1/completions has no format field, so the harness cannot send one there)
         reqs = {m: byrun[(si, m)]["req"] for m in ALL_MODES if (si, m) in byrun}
-        fams = [[m for m in reqs if not m.startswith("v1")], [m for m in reqs if m.startswith("v1")]]
+        fams = [[m for m in reqs if m in ("st", "ns")], [m for m in reqs if m in ("cst", "cns")], [m for m in reqs if m.startswith("v1")]]
         bad = not c.get("raw") and len(set(r["prompt"] for r in reqs.values())) > 1   # /v1/completions has no raw either
         for fam in fams:
             bad = bad or len(set((reqs[m]["prompt"], reqs[m]["format"], json.dumps(reqs[m].get("stop"))) for m in fam)) > 1
@@ -906,7 +958,7 @@ def shrink_run_case(h, oracle, c, sig_class):
     def fails(cand):
         found = []
         try:
-            o = h.ask(cand)
+            o = h.ask({k: v for k, v in cand.items() if k not in ("klass", "text", "_varfields")})
         except Exception:
             return False
         monitor_case(cand, o, oracle, lambda sig, what, detail: found.append(sig))
@@ -966,7 +1018,9 @@ def run(ctx):
                 "call 2-3 times with other calls in between, each call in a chunk of its own and all in one chunk; llm cases: the REAL llmServer.Completion against a scripted "
                 "runner HTTP server (done then clean end / connection cut / missing newline / extra lines after done; cut before done at and inside a line; clean end without done; "
                 "33+ identical tokens; error status; undecodable and blank lines), alone and under the real handlers (/api/generate, /api/chat, stream and non-stream); "
-                "off-contract mock runners (callbacks or an error after the final response) for the correspondence only. non-trivial = at least two chunks and the runner script reached the handler; distinct = canonical JSON of the case"
+                "off-contract mock runners (callbacks or an error after the final response) for the correspondence only; raw HTTP modes send raw JSON bodies, about half of the "
+                "run cases with fields present but empty or null (tools []/null, format \"\"/null, options null/{}, stop [], stream null, keep_alive null, images [], suffix \"\", "
+                "context [], /v1 tools/stop/response_format/stream_options null or empty ...). non-trivial = at least two chunks and the runner script reached the handler; distinct = canonical JSON of the case"
                 % (3 if quick else 6))
     ctx.trusted = ["Coq 8.16.1 kernel + vm_compute", "hand-written model coq/Stream/Model.v tied to the code by this differential run only",
                    "encoding/json, net/http, gin, bufio.Scanner (records are compared after decoding; the scanner's buffer rule is modelled as len+1 <= max)",
@@ -1045,12 +1099,14 @@ def _run(ctx, h, only_cases=None):
     items, meta = [], []
     ctx.log("%d cases generated" % len(cases))
     for ci, c in enumerate(cases):
-        send = {k: v for k, v in c.items() if k not in ("klass", "text", "cls", "offcontract")}
+        send = {k: v for k, v in c.items() if k not in ("klass", "text", "cls", "offcontract", "_varfields")}
+        for f in c.get("_varfields", []):
+            ctx.count("reqvar:" + f)
         o = h.ask(send)
         if "panic" in o or "harness_error" in o:
             ctx.violation({"class": "harness-panic"}, "harness panicked: %s" % o, {"case": c, "impl": o})
             continue
-        canon = {k: v for k, v in c.items() if k != "klass"}
+        canon = {k: v for k, v in c.items() if k not in ("klass", "_varfields")}
         if c["op"] == "llm":
             ctx.note_case(canon, True, c["klass"], sample={"case": c, "impl": {k: v for k, v in o.items() if k != "run"}})
             monitor_llm(c, o, lambda sig, what, detail, c=c: viols.append((c, sig, what, detail)))
